@@ -64,10 +64,21 @@ pub fn make_scenario(prop: &str, run_seed: u64, thorough: bool) -> Scenario {
         }
     }
     let race_on = generate::RACE.with(std::cell::Cell::get);
+    let wide = {
+        let mut wr = root.split(label("wide"));
+        matches!(prop, "C01" | "C03" | "C02" | "C07") && (std::env::var("VERIF_FORCE_WIDE").is_ok() || wr.chance(1, 10))
+    };
     // CPU affinity of the run, from a stream of its own
     let cpus = {
         let mut cr = root.split(label("cpus"));
         match prop {
+            // wide shapes exist for the chunking of parallel work: most of
+            // them run with few CPUs
+            "C01" | "C02" | "C03" | "C07" if wide => match cr.below(4) {
+                0 | 1 => Some(1),
+                2 => Some(2),
+                _ => None,
+            },
             "C01" | "C02" | "C03" | "C05" | "C07" => match cr.below(8) {
                 0 | 1 => Some(1),
                 2 => Some(2),
@@ -83,10 +94,6 @@ pub fn make_scenario(prop: &str, run_seed: u64, thorough: bool) -> Scenario {
             "C01" | "C07" => gr.chance(1, 20),
             _ => false,
         }
-    };
-    let wide = {
-        let mut wr = root.split(label("wide"));
-        matches!(prop, "C01" | "C03" | "C02" | "C07") && wr.chance(1, 10)
     };
     match prop {
         "C01" | "C03" => {
